@@ -82,7 +82,8 @@ def discharge(ob, z3_ms=10000, cvc5_s=30, use_cvc5=True, scratch=None):
 
 def discharge_smt2(txt, z3_ms=10000, cvc5_s=30, use_cvc5=True):
     """Same staged strategy on an obligation shipped as SMT-LIB text (hypotheses ..., negated goal last)."""
-    from .exec import has_quant
+    from .exec import has_quant, clear_memo
+    clear_memo()
     t0 = time.time()
     fs = list(z3.parse_smt2_string(txt))
 
